@@ -128,7 +128,15 @@ def spec_trace(ops):
                         break
             out.append('(p %d)' % chosen if chosen is not None else 'repr')
         elif k == 'q':
-            out.append(None)   # not part of the printed-value oracle
+            # with check_deferred=True a by-name registration counts like a direct one: the answer is "some class the query may look at
+            # (the class itself, or its whole MRO with check_superclasses) has a registration".  With check_deferred=False the answer
+            # depends on which by-name entries have been promoted so far, which the property does not pin down: left to the correspondence.
+            cs, cd, rd = op[2]
+            if cd:
+                look = mro_ids(lat, op[1]) if cs else [op[1]]
+                out.append('yes' if any(c in latest for c in look) else 'no')
+            else:
+                out.append(None)
     return out
 
 
